@@ -19,6 +19,8 @@ CLOCK-SRC - the clocks handed to set_start_end_clock are readings of
 time.time() (followed through locals and through the fields of helper objects
 such as a Chrono): a perf_counter / monotonic reading has an origin that
 changes with the process or the boot and cannot be compared across runs.
+GRAPH-WHOLE - Scheduler.schedule hands the backend the job's own full and
+hard graphs, not a copy from which nodes or edges were removed.
 Not decided: sequences of runs beyond these per-run obligations; clock
 monotonicity (time.time() is trusted).
 '''
@@ -32,6 +34,7 @@ def check(ctx):
     ctx.run(persist.check_merge_done)
     ctx.run(sched_rel.check_topo)
     ctx.run(sched_worker.check_clock_src)
+    ctx.run(sched_rel.check_graph_whole)
 
 
 from ..variants import sched as _v   # noqa: E402
